@@ -144,7 +144,7 @@ PROPS = {
                              thorough=[('scenario', ['-dir', '@ROOT/corpus/C03']), ('hist', ['-n', 20000, '-scans', 12]), ('hist', ['-n', 10000, '-scans', 12, '-focus', 'autodisc']), ('hist', ['-n', 10000, '-scans', 12, '-focus', 'restore']), ('hist', ['-n', 8000, '-scans', 12, '-focus', 'rotate'])],
                              search=[('hist', ['-n', 1500, '-scans', 12]), ('hist', ['-n', 1500, '-scans', 12, '-focus', 'autodisc']), ('hist', ['-n', 1500, '-scans', 12, '-focus', 'restore']), ('hist', ['-n', 1500, '-scans', 12, '-focus', 'rotate'])]),
                 aspects=['hist:taintadds', 'hist:untaints'], monitors=['C03'],
-                theorems=['Esc.P.C03_floor', 'Esc.P.C03_below_min', 'Esc.P.C03_restore', 'Esc.P.C03_history', 'Esc.P.gen_taintClamp_eq', 'Esc.P.C03_source_clamp', 'Esc.P.C06_source_taint_at_most_n', 'Esc.P.gen_taintLoop_count_eq', 'Esc.P.C06_taintLoop_count_exact', 'Esc.P.gen_taintLoop_count_eq_dry'],
+                theorems=['Esc.P.C03_floor', 'Esc.P.C03_below_min', 'Esc.P.C03_restore', 'Esc.P.C03_history', 'Esc.P.gen_taintClamp_eq', 'Esc.P.C03_source_clamp', 'Esc.P.C06_source_taint_at_most_n', 'Esc.P.gen_taintLoop_count_eq', 'Esc.P.C06_taintLoop_count_exact', 'Esc.P.gen_taintLoop_count_eq_dry', 'Esc.P.taintLoop_dry_tracker'],
                 technique='Lean 4 theorem (journal shape + counting lemma for the taint loop) + differential correspondence and runtime monitor',
                 level_text='C03_floor / C03_history: for every rate, minimum (configured or auto-discovered), state, view with unique node names and environment, along every history, '
                            'untainted-seen minus accepted-taint-adds >= effective minimum whenever a taint is added; C03_below_min: below the minimum nothing is tainted; C03_restore: with the node count within bounds, fewer untainted nodes than the minimum and no cool-down running (for ANY controller state, hence whatever earlier scans left behind) the scan is exactly ScaleUp(min - untainted) on the tainted nodes: untaint newest first, then the remainder from the cloud (C07_order, C07_remainder) - no early return. '
@@ -182,7 +182,7 @@ PROPS = {
                 aspects=['hist:taintadds', 'hist:untaints', 'hist:resize', 'hist:delta'], monitors=['C06'],
                 theorems=['Esc.P.C06_bands', 'Esc.P.C06_triggers', 'Esc.P.C06_triggers_off', 'Esc.P.C06_taint_rate', 'Esc.P.C06_idle_band',
                           'Esc.P.C06_up_never_taints', 'Esc.P.C06_down_never_adds', 'Esc.P.taintLoop_count_all_ok',
-                          'Esc.P.C06_starve_iff', 'Esc.P.C06_starve_scales_up', 'Esc.P.C06_float_bands', 'Esc.P.C06_rne64_bands', 'Esc.P.C06_decision_exact', 'Esc.P.C06_up_never_removes', 'Esc.P.C06_up_shape', 'Esc.P.C06_taint_walks_on', 'Esc.P.gen_calcPercentUsage_eq', 'Esc.P.gen_calcScaleUpDelta_vals', 'Esc.P.gen_bandSwitch_vals', 'Esc.P.gen_bandSwitch_sentinel', 'Esc.P.C06_source_bands', 'Esc.P.gen_decide_translation_complete', 'Esc.P.gen_taintClamp_eq', 'Esc.P.C03_source_clamp', 'Esc.P.gen_isScaleOnStarve_eq', 'Esc.P.gen_scaleOnMaxNodeAge_eq', 'Esc.P.C06_source_triggers_off', 'Esc.P.gen_triggers_translation_complete', 'Esc.P.taintStep_spec', 'Esc.P.C06_source_taint_at_most_n', 'Esc.P.C06_source_taint_exact', 'Esc.P.C06_source_taint_exact_failures', 'Esc.P.gen_loops_translation_complete', 'Esc.P.gen_taintLoop_count_eq', 'Esc.P.C06_taintLoop_count_exact', 'Esc.P.gen_taintLoop_count_eq_dry'],
+                          'Esc.P.C06_starve_iff', 'Esc.P.C06_starve_scales_up', 'Esc.P.C06_float_bands', 'Esc.P.C06_rne64_bands', 'Esc.P.C06_decision_exact', 'Esc.P.C06_up_never_removes', 'Esc.P.C06_up_shape', 'Esc.P.C06_taint_walks_on', 'Esc.P.gen_calcPercentUsage_eq', 'Esc.P.gen_calcScaleUpDelta_vals', 'Esc.P.gen_bandSwitch_vals', 'Esc.P.gen_bandSwitch_sentinel', 'Esc.P.C06_source_bands', 'Esc.P.gen_decide_translation_complete', 'Esc.P.gen_taintClamp_eq', 'Esc.P.C03_source_clamp', 'Esc.P.gen_isScaleOnStarve_eq', 'Esc.P.gen_scaleOnMaxNodeAge_eq', 'Esc.P.C06_source_triggers_off', 'Esc.P.gen_triggers_translation_complete', 'Esc.P.taintStep_spec', 'Esc.P.C06_source_taint_at_most_n', 'Esc.P.C06_source_taint_exact', 'Esc.P.C06_source_taint_exact_failures', 'Esc.P.gen_loops_translation_complete', 'Esc.P.gen_taintLoop_count_eq', 'Esc.P.C06_taintLoop_count_exact', 'Esc.P.gen_taintLoop_count_eq_dry', 'Esc.P.taintLoop_dry_tracker'],
                 technique='Lean 4 theorem (band case analysis for any rounding function; exact taint count when no attempt fails; journal shape of the idle and scale-up branches) + differential correspondence at threshold neighbourhoods + exact-rational band oracle and documented-starve oracle as monitors',
                 level_text='C06_bands: the decision is -fast / -slow / 0 / scale-up formula according to where max(cpu%,mem%) (as computed) lies relative to the three thresholds (as converted), for every rounding function; C06_taint_rate: exactly min(rate, untainted - min) nodes are tainted when no attempt fails; '
                            'C06_idle_band: decision 0 yields only reaping; C06_up_never_taints; C06_triggers: starve / max-age only raise the decision to >= 1; C06_starve_iff: the starve trigger computed from the largest-pending / largest-available digests is exactly the documented condition (option on, some pending pod asks in CPU or memory for more than any untainted node has left, untainted < max_nodes), so C06_starve_scales_up: under that condition the decision is >= 1 in every band. C06_float_bands / C06_rne64_bands: for every rounding function obeying the standard model with u <= 2^-43 (binary64: 2^-53, proved for the executed rne64) the band decision is the one the EXACT utilisation max(100Rc/Cc, 100Rm/Cm) dictates whenever it is outside a relative neighbourhood of 2^-40 of a threshold; inside that neighbourhood either side is accepted (monitor likewise). '
